@@ -1,3 +1,326 @@
-(* C35/Proofs.v — lemmas (placeholder, extended below). *)
-From Coq Require Import List NArith Bool Arith Lia.
+(* C35/Proofs.v — the map+list model refines the recency-list specification. *)
+From Coq Require Import List NArith Bool Arith Lia Permutation.
 From C35 Require Import Model.
+Import ListNotations.
+Local Open Scope N_scope.
+
+Definition kv (e : elem) : N * N := (e_key e, e_val e).
+Definition ki (e : elem) : N * nat := (e_key e, e_id e).
+Definition abs (s : lru) : rspec := mkr (cap s) (map kv (lst s)).
+
+Record minv (s : lru) : Prop := {
+  mi_ids : NoDup (map e_id (lst s));
+  mi_keys : NoDup (map e_key (lst s));
+  mi_map : Permutation (cache s) (map ki (lst s));
+  mi_fresh : forall e, In e (lst s) -> (e_id e < fresh s)%nat }.
+
+(* ---- association lists with unique keys ---- *)
+Lemma mget_in (m : list (N * nat)) k i : mget k m = Some i -> In (k, i) m.
+Proof.
+  induction m as [|[k' e] m IH]; simpl; [discriminate|].
+  destruct (k' =? k) eqn:E.
+  - apply N.eqb_eq in E. intros H. inversion H; subst. left; reflexivity.
+  - intros H. right. apply IH; exact H.
+Qed.
+
+Lemma in_mget (m : list (N * nat)) k i : NoDup (map fst m) -> In (k, i) m -> mget k m = Some i.
+Proof.
+  induction m as [|[k' e] m IH]; simpl; intros Hnd Hin; [tauto|].
+  inversion Hnd; subst. destruct Hin as [Hin|Hin].
+  - inversion Hin; subst. rewrite N.eqb_refl. reflexivity.
+  - destruct (k' =? k) eqn:E.
+    + apply N.eqb_eq in E. subst. exfalso. apply H1. apply in_map_iff. exists (k, i). split; [reflexivity|exact Hin].
+    + apply IH; assumption.
+Qed.
+
+Lemma mget_none (m : list (N * nat)) k : mget k m = None <-> ~ In k (map fst m).
+Proof.
+  induction m as [|[k' e] m IH]; simpl; [tauto|].
+  destruct (k' =? k) eqn:E.
+  - apply N.eqb_eq in E. subst. split; [discriminate|]. intros H. exfalso. apply H. left; reflexivity.
+  - apply N.eqb_neq in E. rewrite IH. tauto.
+Qed.
+
+Lemma mset_absent (m : list (N * nat)) k i : ~ In k (map fst m) -> mset k i m = m ++ [(k, i)].
+Proof.
+  induction m as [|[k' e] m IH]; simpl; intros H; [reflexivity|].
+  destruct (k' =? k) eqn:E.
+  - apply N.eqb_eq in E. subst. exfalso. apply H. left; reflexivity.
+  - f_equal. apply IH. tauto.
+Qed.
+
+Lemma mdel_perm (m : list (N * nat)) k i : NoDup (map fst m) -> In (k, i) m ->
+  Permutation m ((k, i) :: mdel k m).
+Proof.
+  induction m as [|[k' e] m IH]; simpl; intros Hnd Hin; [tauto|].
+  inversion Hnd; subst. destruct Hin as [Hin|Hin].
+  - inversion Hin; subst. rewrite N.eqb_refl. reflexivity.
+  - destruct (k' =? k) eqn:E.
+    + apply N.eqb_eq in E. subst. exfalso. apply H1. apply in_map_iff. exists (k, i). split; [reflexivity|exact Hin].
+    + rewrite perm_swap. constructor. apply IH; assumption.
+Qed.
+
+(* ---- the recency list ---- *)
+Lemma lfind_in l i e : lfind i l = Some e -> In e l /\ e_id e = i.
+Proof.
+  induction l as [|x l IH]; simpl; [discriminate|].
+  destruct (Nat.eqb (e_id x) i) eqn:E.
+  - apply Nat.eqb_eq in E. intros H. inversion H; subst. split; [left; reflexivity|reflexivity].
+  - intros H. destruct (IH H). split; [right; assumption|assumption].
+Qed.
+
+Lemma in_lfind l e : NoDup (map e_id l) -> In e l -> lfind (e_id e) l = Some e.
+Proof.
+  induction l as [|x l IH]; simpl; intros Hnd Hin; [tauto|].
+  inversion Hnd; subst. destruct Hin as [->|Hin].
+  - rewrite Nat.eqb_refl. reflexivity.
+  - destruct (Nat.eqb (e_id x) (e_id e)) eqn:E.
+    + apply Nat.eqb_eq in E. exfalso. apply H1. rewrite E. apply in_map. exact Hin.
+    + apply IH; assumption.
+Qed.
+
+Lemma rfind_kv l e : NoDup (map e_key l) -> In e l -> rfind (e_key e) (map kv l) = Some (e_val e).
+Proof.
+  induction l as [|x l IH]; simpl; intros Hnd Hin; [tauto|].
+  inversion Hnd; subst. destruct Hin as [->|Hin].
+  - rewrite N.eqb_refl. reflexivity.
+  - destruct (e_key x =? e_key e) eqn:E.
+    + apply N.eqb_eq in E. exfalso. apply H1. rewrite E. apply in_map. exact Hin.
+    + apply IH; assumption.
+Qed.
+
+Lemma rfind_kv_none l k : ~ In k (map e_key l) -> rfind k (map kv l) = None.
+Proof.
+  induction l as [|x l IH]; simpl; intros H; [reflexivity|].
+  destruct (e_key x =? k) eqn:E.
+  - apply N.eqb_eq in E. exfalso. apply H. left; exact E.
+  - apply IH. tauto.
+Qed.
+
+Lemma lremove_kv l e : NoDup (map e_id l) -> NoDup (map e_key l) -> In e l ->
+  map kv (lremove (e_id e) l) = rremove (e_key e) (map kv l).
+Proof.
+  induction l as [|x l IH]; simpl; intros Hi Hk Hin; [tauto|].
+  inversion Hi; subst. inversion Hk; subst. destruct Hin as [->|Hin].
+  - rewrite Nat.eqb_refl, N.eqb_refl. reflexivity.
+  - destruct (Nat.eqb (e_id x) (e_id e)) eqn:E.
+    + apply Nat.eqb_eq in E. exfalso. apply H1. rewrite E. apply in_map. exact Hin.
+    + destruct (e_key x =? e_key e) eqn:E2.
+      * apply N.eqb_eq in E2. exfalso. apply H3. rewrite E2. apply in_map. exact Hin.
+      * simpl. f_equal. apply IH; assumption.
+Qed.
+
+Lemma lremove_in l i x : In x (lremove i l) -> In x l.
+Proof.
+  induction l as [|y l IH]; simpl; [tauto|].
+  destruct (Nat.eqb (e_id y) i); simpl; intros H; [right; exact H|].
+  destruct H; [left; assumption|right; apply IH; assumption].
+Qed.
+
+Lemma lremove_nodup {A} (f : elem -> A) l i : NoDup (map f l) -> NoDup (map f (lremove i l)).
+Proof.
+  induction l as [|y l IH]; simpl; intros H; [constructor|].
+  inversion H; subst. destruct (Nat.eqb (e_id y) i); [assumption|].
+  simpl. constructor; [|apply IH; assumption].
+  intros Hin. apply H2. apply in_map_iff in Hin. destruct Hin as [z [Ez Hz]].
+  apply in_map_iff. exists z. split; [exact Ez|eapply lremove_in; exact Hz].
+Qed.
+
+Lemma lremove_not_in l e : NoDup (map e_id l) -> In e l -> ~ In (e_id e) (map e_id (lremove (e_id e) l)).
+Proof.
+  induction l as [|y l IH]; simpl; intros Hnd Hin; [tauto|].
+  inversion Hnd; subst. destruct (Nat.eqb (e_id y) (e_id e)) eqn:E.
+  - apply Nat.eqb_eq in E. rewrite <- E. exact H1.
+  - destruct Hin as [->|Hin]; [rewrite Nat.eqb_refl in E; discriminate|].
+    simpl. intros [H|H]; [apply Nat.eqb_neq in E; contradiction|]. apply (IH H2 Hin H).
+Qed.
+
+Lemma lremove_perm l e : NoDup (map e_id l) -> In e l -> Permutation l (e :: lremove (e_id e) l).
+Proof.
+  induction l as [|y l IH]; simpl; intros Hnd Hin; [tauto|].
+  inversion Hnd; subst. destruct Hin as [->|Hin].
+  - rewrite Nat.eqb_refl. reflexivity.
+  - destruct (Nat.eqb (e_id y) (e_id e)) eqn:E.
+    + apply Nat.eqb_eq in E. exfalso. apply H1. rewrite E. apply in_map. exact Hin.
+    + rewrite perm_swap. constructor. apply IH; assumption.
+Qed.
+
+Lemma lremove_perm_map {A} (f : elem -> A) l e : NoDup (map e_id l) -> In e l ->
+  Permutation (map f l) (f e :: map f (lremove (e_id e) l)).
+Proof. intros H1 H2. change (f e :: map f (lremove (e_id e) l)) with (map f (e :: lremove (e_id e) l)).
+  apply Permutation_map. apply lremove_perm; assumption. Qed.
+
+Lemma lsetval_spec l e v : NoDup (map e_id l) -> In e l ->
+  let e' := mke (e_id e) (e_key e) v in
+  In e' (lsetval (e_id e) v l) /\ map e_id (lsetval (e_id e) v l) = map e_id l /\
+  map e_key (lsetval (e_id e) v l) = map e_key l /\
+  lremove (e_id e) (lsetval (e_id e) v l) = lremove (e_id e) l.
+Proof.
+  induction l as [|y l IH]; simpl; intros Hnd Hin; [tauto|].
+  inversion Hnd; subst. destruct Hin as [->|Hin].
+  - rewrite Nat.eqb_refl. simpl. rewrite Nat.eqb_refl. repeat split; try reflexivity. left; reflexivity.
+  - destruct (Nat.eqb (e_id y) (e_id e)) eqn:E.
+    + apply Nat.eqb_eq in E. exfalso. apply H1. rewrite E. apply in_map. exact Hin.
+    + destruct (IH H2 Hin) as [A [B [C D]]]. simpl. rewrite E. repeat split.
+      * right; exact A.
+      * f_equal; exact B.
+      * f_equal; exact C.
+      * f_equal; exact D.
+Qed.
+
+Lemma back_spec l e : back l = Some e -> exists l', l = l' ++ [e].
+Proof.
+  unfold back. intros H. destruct l as [|x l]; [discriminate|].
+  assert (Hne : x :: l <> []) by discriminate.
+  destruct (exists_last Hne) as [l' [y E]]. rewrite E in *.
+  rewrite map_app in H. simpl in H. rewrite last_last in H. inversion H; subst. exists l'. reflexivity.
+Qed.
+
+Lemma back_none l : back l = None -> l = [].
+Proof.
+  unfold back. destruct l as [|x l]; [reflexivity|]. intros H.
+  assert (Hne : x :: l <> []) by discriminate.
+  destruct (exists_last Hne) as [l' [y E]]. rewrite E in H.
+  rewrite map_app in H. simpl in H. rewrite last_last in H. discriminate.
+Qed.
+
+Lemma lremove_last l e : NoDup (map e_id (l ++ [e])) -> lremove (e_id e) (l ++ [e]) = l.
+Proof.
+  induction l as [|y l IH]; simpl; intros Hnd.
+  - rewrite Nat.eqb_refl. reflexivity.
+  - inversion Hnd; subst. destruct (Nat.eqb (e_id y) (e_id e)) eqn:E.
+    + apply Nat.eqb_eq in E. exfalso. apply H1. rewrite E, map_app. apply in_or_app. right. left; reflexivity.
+    + f_equal. apply IH; assumption.
+Qed.
+
+(* ---- the refinement ---- *)
+Lemma minv_new c : minv (m_new c).
+Proof. constructor; simpl; [constructor|constructor|constructor|intros e []]. Qed.
+
+Lemma abs_new c : abs (m_new c) = r_new c.
+Proof. reflexivity. Qed.
+
+Lemma cache_keys s : minv s -> NoDup (map fst (cache s)).
+Proof.
+  intros [Hi Hk Hm Hf]. eapply Permutation_NoDup.
+  - apply Permutation_map. symmetry. exact Hm.
+  - rewrite map_map. simpl. exact Hk.
+Qed.
+
+Lemma mget_elem s k i : minv s -> mget k (cache s) = Some i ->
+  exists e, In e (lst s) /\ e_id e = i /\ e_key e = k.
+Proof.
+  intros Hinv H. apply mget_in in H. destruct Hinv as [Hi Hk Hm Hf].
+  eapply Permutation_in in H; [|exact Hm]. apply in_map_iff in H. destruct H as [e [E He]].
+  inversion E; subst. exists e. auto.
+Qed.
+
+Lemma mget_miss s k : minv s -> mget k (cache s) = None -> ~ In k (map e_key (lst s)).
+Proof.
+  intros Hinv H. apply mget_none in H. intros Hin. apply H. destruct Hinv as [Hi Hk Hm Hf].
+  eapply Permutation_in; [apply Permutation_map; symmetry; exact Hm|].
+  rewrite map_map. exact Hin.
+Qed.
+
+Theorem m_step_refines s o : minv s ->
+  minv (fst (m_step s o)) /\ abs (fst (m_step s o)) = fst (r_step (abs s) o) /\
+  snd (m_step s o) = snd (r_step (abs s) o).
+Proof.
+  intros Hinv. pose proof Hinv as [Hi Hk Hm Hf]. destruct o as [k|k v|]; simpl.
+  - (* Get *)
+    destruct (mget k (cache s)) as [i|] eqn:Eg.
+    + destruct (mget_elem _ _ _ Hinv Eg) as [e [He [<- <-]]].
+      unfold move_to_front. rewrite (in_lfind _ _ Hi He). simpl. rewrite Nat.eqb_refl.
+      rewrite (rfind_kv _ _ Hk He). simpl. split; [|split; [|reflexivity]].
+      * constructor; simpl.
+        -- constructor; [apply lremove_not_in; assumption|apply lremove_nodup; assumption].
+        -- eapply Permutation_NoDup; [|exact Hk]. apply (lremove_perm_map e_key); assumption.
+        -- rewrite Hm. apply (lremove_perm_map ki); assumption.
+        -- intros x [<-|Hx]; [apply Hf; assumption|apply Hf; eapply lremove_in; exact Hx].
+      * unfold abs. simpl. f_equal. f_equal. apply lremove_kv; assumption.
+    + rewrite (rfind_kv_none _ _ (mget_miss _ _ Hinv Eg)). simpl. auto.
+  - (* Put *)
+    destruct (mget k (cache s)) as [i|] eqn:Eg.
+    + destruct (mget_elem _ _ _ Hinv Eg) as [e [He [<- <-]]].
+      destruct (lsetval_spec _ _ v Hi He) as [A [B [C D]]].
+      rewrite (rfind_kv _ _ Hk He). simpl.
+      assert (Hi' : NoDup (map e_id (lsetval (e_id e) v (lst s)))) by (rewrite B; exact Hi).
+      unfold move_to_front.
+      pose proof (in_lfind _ _ Hi' A) as Hf'. simpl in Hf'. rewrite Hf'. rewrite D.
+      split; [|split; [|reflexivity]].
+      * constructor; simpl.
+        -- constructor; [apply lremove_not_in; assumption|apply lremove_nodup; assumption].
+        -- eapply Permutation_NoDup; [|exact Hk]. apply (lremove_perm_map e_key); assumption.
+        -- rewrite Hm. change (ki (mke (e_id e) (e_key e) v)) with (ki e).
+           apply (lremove_perm_map ki); assumption.
+        -- intros x [<-|Hx]; [simpl; apply Hf; assumption|apply Hf; eapply lremove_in; exact Hx].
+      * unfold abs. simpl. f_equal. f_equal. apply lremove_kv; assumption.
+    + pose proof (mget_miss _ _ Hinv Eg) as Hmiss.
+      rewrite (rfind_kv_none _ _ Hmiss). rewrite map_length.
+      assert (Hlen : length (cache s) = length (lst s)).
+      { rewrite (Permutation_length Hm). apply map_length. }
+      rewrite Hlen.
+      destruct (cap s <=? N.of_nat (length (lst s))) eqn:Efull.
+      * destruct (back (lst s)) as [e|] eqn:Eb.
+        -- destruct (back_spec _ _ Eb) as [l' El].
+           assert (He : In e (lst s)) by (rewrite El; apply in_or_app; right; left; reflexivity).
+           assert (Hrm : lremove (e_id e) (lst s) = l').
+           { rewrite El. apply lremove_last. rewrite <- El. exact Hi. }
+           rewrite Hrm. simpl.
+           assert (Hl' : forall x, In x l' -> In x (lst s)) by (intros x Hx; rewrite El; apply in_or_app; left; exact Hx).
+           assert (Hk' : NoDup (map e_key l')).
+           { rewrite El, map_app in Hk. apply NoDup_remove_1 in Hk. rewrite app_nil_r in Hk. exact Hk. }
+           assert (Hi'' : NoDup (map e_id l')).
+           { rewrite El, map_app in Hi. apply NoDup_remove_1 in Hi. rewrite app_nil_r in Hi. exact Hi. }
+           assert (Hperm : Permutation (mdel (e_key e) (cache s)) (map ki l')).
+           { assert (Hin : In (e_key e, e_id e) (cache s)).
+             { eapply Permutation_in; [symmetry; exact Hm|]. apply in_map_iff. exists e. split; [reflexivity|exact He]. }
+             pose proof (mdel_perm _ _ _ (cache_keys _ Hinv) Hin) as P.
+             rewrite Hm in P at 1. rewrite El in P at 1. rewrite map_app in P. simpl in P.
+             apply Permutation_cons_inv with (a := ki e).
+             rewrite <- P. symmetry. apply Permutation_cons_append. }
+           assert (Hkabs : ~ In k (map fst (mdel (e_key e) (cache s)))).
+           { intros Hin. eapply Permutation_in in Hin; [|apply Permutation_map; exact Hperm].
+             rewrite map_map in Hin. simpl in Hin. apply Hmiss. rewrite El, map_app. apply in_or_app. left. exact Hin. }
+           split; [|split; [|reflexivity]].
+           ++ constructor; simpl.
+              ** constructor; [|exact Hi''].
+                 intros Hin. apply in_map_iff in Hin. destruct Hin as [x [Ex Hx]].
+                 specialize (Hf x (Hl' x Hx)). lia.
+              ** constructor; [|exact Hk'].
+                 intros Hin. apply Hmiss. rewrite El, map_app. apply in_or_app. left. exact Hin.
+              ** rewrite (mset_absent _ _ _ Hkabs). rewrite Hperm.
+                 symmetry. apply Permutation_cons_append.
+              ** intros x [<-|Hx]; simpl; [lia|]. specialize (Hf x (Hl' x Hx)). lia.
+           ++ unfold abs. simpl. f_equal. f_equal. rewrite El, map_app. simpl.
+              rewrite removelast_last. reflexivity.
+        -- apply back_none in Eb. rewrite Eb in *. simpl.
+           assert (Hc : cache s = []).
+           { destruct (cache s); [reflexivity|]. simpl in Hlen. discriminate. }
+           rewrite Hc. simpl. split; [|split; [|reflexivity]].
+           ++ constructor; simpl.
+              ** constructor; [intros []|constructor].
+              ** constructor; [intros []|constructor].
+              ** reflexivity.
+              ** intros x [<-|[]]. simpl. lia.
+           ++ reflexivity.
+      * assert (Hkabs : ~ In k (map fst (cache s))) by (apply mget_none; exact Eg).
+        split; [|split; [|reflexivity]].
+        -- constructor; simpl.
+           ++ constructor; [|exact Hi].
+              intros Hin. apply in_map_iff in Hin. destruct Hin as [x [Ex Hx]]. specialize (Hf x Hx). lia.
+           ++ constructor; [exact Hmiss|exact Hk].
+           ++ rewrite (mset_absent _ _ _ Hkabs). rewrite Hm. symmetry. apply Permutation_cons_append.
+           ++ intros x [<-|Hx]; simpl; [lia|]. specialize (Hf x Hx). lia.
+        -- reflexivity.
+  - (* Dump *)
+    split; [exact Hinv|]. split; reflexivity.
+Qed.
+
+Theorem m_run_refines ops : forall s, minv s -> m_run s ops = r_run (abs s) ops.
+Proof.
+  induction ops as [|o ops IH]; intros s Hinv; simpl; [reflexivity|].
+  destruct (m_step_refines s o Hinv) as [A [B C]].
+  destruct (m_step s o) as [s' x]. destruct (r_step (abs s) o) as [q' y]. simpl in *.
+  subst. f_equal. apply IH. exact A.
+Qed.
